@@ -160,6 +160,26 @@ def analyse_map(fx, fn_path, group_ty, n_params, a0, rep, label):
             events.append(('clear', where))
             fr.store_through(args[0], v.apply('clear'))
             return True
+        if trait == 'std::cmp::PartialEq' and name in ('eq', 'ne') and len(args) == 2:
+            def deep(v):
+                for _ in range(6):
+                    if isinstance(v, exp.Ref):
+                        if v.root not in fr.store and ('*', v.root) in fr.store and not v.proj:
+                            v = fr.store[('*', v.root)]        # a reference to a by-reference parameter
+                        else:
+                            v = fr._project(fr.store.get(v.root, exp.TOP), v.proj)
+                    elif isinstance(v, tuple) and len(v) == 2 and v[0] == 'byref':
+                        v = v[1]
+                    else:
+                        break
+                return v
+            a, b = deep(argvals[0]), deep(argvals[1])
+            if a is exp.TOP or b is exp.TOP:
+                a, b = deep(fr.operand(args[0])), deep(fr.operand(args[1]))
+            if all(isinstance(v, tuple) and len(v) == 2 and v[0] == 'input' for v in (a, b)):
+                key = ('inputs-equal', min(a[1], b[1]), max(a[1], b[1]))
+                fr.storev(t['dest'], exp.Int(1 if name == 'eq' else 0, 1) if a[1] == b[1] else ('bool', key if name == 'eq' else ('not', key)))
+                return True
         if not staged_idx:
             return False
         # any other call touching a staged value
